@@ -163,7 +163,7 @@ func ruleEExtremes(p *Program, r *Reporter) {
 			continue
 		}
 		key := "evaluator." + job.name + " extremal"
-		vr, why := d.run(fn, 3, nil)
+		vr, why := d.run(fn, 4, nil)
 		if why != "" {
 			r.Unknown(fn.Pos(), key, why)
 			continue
@@ -176,15 +176,16 @@ func ruleEExtremes(p *Program, r *Reporter) {
 				continue
 			}
 			as, k, ok := vr.subjectArray(o.St)
-			if !ok || k != 2 {
+			if !ok || k < 2 || k > 3 {
 				continue
 			}
-			e0, e1 := elemSym(as, 0), elemSym(as, 1)
+			n := int(k)
 			res := avKey(unboxed(o.Res[0]))
 			dec := func(v AV) AV { return avSym{tag: "dec", payload: v} }
 			str := func(v AV) AV { return avSym{tag: "asserted:string", payload: v} }
 			which, kind := -1, ""
-			for i, ev := range []AV{e0, e1} {
+			for i := 0; i < n; i++ {
+				ev := elemSym(as, int64(i))
 				switch res {
 				case avKey(dec(ev)):
 					which, kind = i, "numbers"
@@ -192,7 +193,7 @@ func ruleEExtremes(p *Program, r *Reporter) {
 					which, kind = i, "strings"
 				case avKey(ev):
 					which, kind = i, "numbers"
-					if passed, _ := o.St.subjectTests(e0); len(passed) > 0 {
+					if passed, _ := o.St.subjectTests(elemSym(as, 0)); len(passed) > 0 {
 						kind = "strings"
 					}
 				}
@@ -204,25 +205,51 @@ func ruleEExtremes(p *Program, r *Reporter) {
 			if kind == "strings" {
 				wrap = str
 			}
-			lo, hi, _ := ordRange(o.St, wrap(e1), wrap(e0))
+			// le[i][j]: element i is known not to come after element j; closed under transitivity
+			le := make([][]bool, n)
+			for i := range le {
+				le[i] = make([]bool, n)
+				le[i][i] = true
+			}
+			for i := 0; i < n; i++ {
+				for j := 0; j < n; j++ {
+					if i != j {
+						if _, hi, found := ordRange(o.St, wrap(elemSym(as, int64(i))), wrap(elemSym(as, int64(j)))); found && hi <= 0 {
+							le[i][j] = true
+						}
+					}
+				}
+			}
+			for m := 0; m < n; m++ {
+				for i := 0; i < n; i++ {
+					for j := 0; j < n; j++ {
+						if le[i][m] && le[m][j] {
+							le[i][j] = true
+						}
+					}
+				}
+			}
 			checked[kind]++
-			s := job.sign
-			notWorse := (s > 0 && lo >= 0) || (s < 0 && hi <= 0)
-			notBetter := (s > 0 && hi <= 0) || (s < 0 && lo >= 0)
-			switch {
-			case which == 1 && !notWorse && bad == "":
-				bad, badPos = fmt.Sprintf("%s: the second element is returned on a path where its comparison with the first is only known to lie in [%d,%d]", kind, lo, hi), o.Ret.Pos()
-			case which == 0 && !notBetter && bad == "":
-				bad, badPos = fmt.Sprintf("%s: the first element is returned on a path where the comparison of the second with it is only known to lie in [%d,%d]", kind, lo, hi), o.Ret.Pos()
+			for j := 0; j < n && bad == ""; j++ {
+				if j == which {
+					continue
+				}
+				okW := le[j][which] // max: every other element not after the one returned
+				if job.sign < 0 {
+					okW = le[which][j]
+				}
+				if !okW {
+					bad, badPos = fmt.Sprintf("%s: of %d elements, element %d is returned on a path that does not know it to be at least as good as element %d (never compared with it, or with a stale running value)", kind, n, which, j), o.Ret.Pos()
+				}
 			}
 		}
 		switch {
 		case bad != "":
 			r.Bad(badPos, key, bad)
 		case checked["numbers"] == 0 || checked["strings"] == 0:
-			r.Unknown(fn.Pos(), key, fmt.Sprintf("result paths over two elements that return one of them: %d over numbers, %d over strings; both kinds are expected", checked["numbers"], checked["strings"]))
+			r.Unknown(fn.Pos(), key, fmt.Sprintf("result paths over two or three elements that return one of them: %d over numbers, %d over strings; both kinds are expected", checked["numbers"], checked["strings"]))
 		default:
-			r.OK(fn.Pos(), key, fmt.Sprintf("%d paths over two numbers and %d over two strings: the element returned is not worse than the other under the path's three-way comparison", checked["numbers"], checked["strings"]))
+			r.OK(fn.Pos(), key, fmt.Sprintf("%d paths over two or three numbers and %d over strings: the element returned is not worse than any other under the path's three-way comparisons (closed under transitivity)", checked["numbers"], checked["strings"]))
 		}
 	}
 }
